@@ -978,6 +978,10 @@ class Models:
     def call_other(self, I, f, args, kwargs):
         raise OutOfSubset('call of %r' % (f,))
 
+    def contract_exception(self, I, cls):
+        """the exception object a callee raises according to its contract (fields unknown unless overridden)"""
+        return VExc(cls, [])
+
     def instantiate_raw(self, I, cls):
         name = I.world.live_class_names.get(cls)
         if name is None:
